@@ -1,5 +1,6 @@
 import ScrapliModel.Lemmas.PrivSession
 import ScrapliModel.Generated.Consts
+import ScrapliModel.Lemmas.BodiesPriv
 /-!
 # C04 — Privilege navigation reaches the target level along the tree path
 
@@ -335,5 +336,110 @@ example :
 example : isPayload exLevels [115, 104] = true := by decide
 
 example : treePath exLevels [99] [116] = [[99], [112], [116]] := by decide +kernel
+
+/-! ## tie to the source: translated body = model (regenerated on every run) -/
+
+set_option linter.unusedSimpArgs false in
+/-- the body of `(*Driver).processAcquirePriv` as the translator renders it from the current source
+(`Generated/BodiesPriv.lean`): given what `determineCurrentPriv` returned (it fails exactly when no
+level matches, and every name it returns is a key of `PrivilegeLevels`) and `buildPrivChangeMap` as
+the model's `pathDFS`, the code resolves the current level (cached → target → first), picks the
+action from the second element of the path, updates `CurrentPriv` and panics (nil map entry,
+`mapTo[1]` out of range) exactly as `processAcquire` says, for every level table, oracle, cache,
+target and prompt -/
+theorem generated_processAcquirePriv_eq (matchP : Level → Bytes → Bool) (o : Orders) (L : Levels)
+    (cache tgt prompt : Bytes) (detErr : Go.Error)
+    (hdet : (determineCurrent matchP o L prompt = [] → detErr ≠ none) ∧
+            (determineCurrent matchP o L prompt ≠ [] → detErr = none))
+    (hlv : ∀ p ∈ determineCurrent matchP o L prompt, (find? L p).isSome) :
+    Gen.Bodies.Priv.processAcquirePriv L (determineCurrent matchP o L prompt) detErr
+        (fun c t => (pathDFS L o c t).getD []) cache tgt prompt
+      = match processAcquire matchP o L cache tgt prompt with
+        | .ok st => .ok (actionStr st.action, st.next, none, st.cache)
+        | .error .panic => .error .panic
+        | .error _ => .ok ([], [], detErr, cache) := by
+  unfold Gen.Bodies.Priv.processAcquirePriv processAcquire
+  generalize hposs : determineCurrent matchP o L prompt = possible at hdet hlv
+  cases possible with
+  | nil =>
+    have := hdet.1 rfl
+    have hb : (detErr != none) = true := by simpa using this
+    simp [hb]
+  | cons p0 ps =>
+    have hnone := hdet.2 (by simp)
+    subst hnone
+    have hidx1 : ∀ (x m1 : Bytes) (rest : List Bytes), Go.idxOK (Go.len (x :: m1 :: rest)) 1 = true := by
+      intro x m1 rest
+      have := Go.idxOK_nat (x :: m1 :: rest) 1
+      simpa using this
+    have hat1 : ∀ (x m1 : Bytes) (rest : List Bytes), Go.at (x :: m1 :: rest) 1 = m1 := by
+      intro x m1 rest; simp [Go.at]
+    have hidx0 : Go.idxOK (Go.len (p0 :: ps)) 0 = true := Go.idxOK_zero_cons _ _
+    have hat0 : Go.at (p0 :: ps) 0 = p0 := Go.at_zero_cons _ _
+    have hnil1 : Go.idxOK (Go.len ([] : List Bytes)) 1 = false := by simp [Go.idxOK, Go.len]
+    have hone1 : ∀ x : Bytes, Go.idxOK (Go.len [x]) 1 = false := by intro x; simp [Go.idxOK, Go.len]
+    -- the part after `current` is fixed, for any value `cur` of it
+    have tail : ∀ cur : Bytes,
+        (if (cur == tgt) = true then
+            (Except.ok (Gen.Network.noAction, cur, (none : Go.Error), cur) : Except Err _)
+          else
+            if (!(Go.idxOK (Go.len ((pathDFS L o cur tgt).getD [])) 1 &&
+                  (find? L (Go.at ((pathDFS L o cur tgt).getD []) 1)).isSome)) = true then .error Err.panic
+            else if ((((find? L (Go.at ((pathDFS L o cur tgt).getD []) 1)).map (·.previous)).getD []) != cur) = true then
+              .ok (Gen.Network.deescalateAction, cur, none, Gen.Network.unknownPriv)
+            else if (!(Go.idxOK (Go.len ((pathDFS L o cur tgt).getD [])) 1 &&
+                  (find? L (Go.at ((pathDFS L o cur tgt).getD []) 1)).isSome)) = true then .error Err.panic
+            else .ok (Gen.Network.escalateAction,
+                (((find? L (Go.at ((pathDFS L o cur tgt).getD []) 1)).map (·.name)).getD []), none,
+                Gen.Network.unknownPriv))
+        = (match (if cur = tgt then (Except.ok ⟨.noAction, cur, cur⟩ : Except Err Step)
+            else match pathDFS L o cur tgt with
+              | some (_ :: m1 :: _) =>
+                match find? L m1 with
+                | some l1 =>
+                  if l1.previous ≠ cur then .ok ⟨.deescalate, cur, unknownPriv⟩
+                  else .ok ⟨.escalate, l1.name, unknownPriv⟩
+                | none => .error .panic
+              | _ => .error .panic) with
+          | .ok st => .ok (actionStr st.action, st.next, none, st.cache)
+          | .error .panic => .error .panic
+          | .error _ => .ok ([], [], none, cache)) := by
+      intro cur
+      by_cases hc : cur = tgt
+      · simp [hc, actionStr]
+      · have hcb : (cur == tgt) = false := by simpa using hc
+        simp only [hcb, Bool.false_eq_true, if_false, hc]
+        cases hp : pathDFS L o cur tgt with
+        | none => simp [hnil1]
+        | some path =>
+          match path with
+          | [] => simp [hnil1]
+          | [x] => simp [hone1]
+          | x :: m1 :: rest =>
+            simp only [Option.getD_some, hidx1, hat1]
+            cases hf : find? L m1 with
+            | none => simp
+            | some l1 =>
+              by_cases hprev : l1.previous = cur
+              · simp [hprev, actionStr, unknownPriv]
+              · simp [hprev, actionStr, unknownPriv]
+    simp only [bne_self_eq_false, Bool.false_eq_true, if_false]
+    by_cases h1 : cache ∈ p0 :: ps
+    · have hb : List.contains (p0 :: ps) cache = true := by simpa using h1
+      simp only [hb, h1, if_true]
+      exact tail cache
+    · have hb : List.contains (p0 :: ps) cache = false := by simpa using h1
+      by_cases h2 : tgt ∈ p0 :: ps
+      · have hb2 : List.contains (p0 :: ps) tgt = true := by simpa using h2
+        have hsome := hlv tgt h2
+        obtain ⟨l, hl⟩ := Option.isSome_iff_exists.mp hsome
+        have hn := find?_name L tgt l hl
+        simp only [hb, hb2, h1, h2, if_true, if_false, Bool.false_eq_true, hl, Option.isSome_some, Bool.not_true,
+          Option.map_some, Option.getD_some, hn]
+        refine (tail tgt).trans ?_
+        simp
+      · have hb2 : List.contains (p0 :: ps) tgt = false := by simpa using h2
+        simp only [hb, hb2, h1, h2, if_false, Bool.false_eq_true, hidx0, hat0, Bool.not_true]
+        exact tail p0
 
 end Scrapli.Priv.C04
